@@ -980,3 +980,53 @@ func containsInt(xs []int, v int) bool {
 	}
 	return false
 }
+
+// checkPublished (C02/C08): a loader-backed Get that returned a value (its own load or a flight it joined) returns
+// after that value is in the cache: if nothing in the whole run can remove or replace the key (no explicit writer or
+// invalidation of it, no automatic removal reported, no load of it that ended without a value), a later lookup by the
+// same goroutine finds an entry.
+func checkPublished(x *Exec, r *Rig, p concParams, recs [][]opRec, nAtomicSetup int) {
+	lbl := "@" + p.Label
+	removable := map[int]bool{}
+	for _, rs := range recs {
+		for _, rc := range rs {
+			f := opFields(rc.op)
+			switch f[0] {
+			case "set", "sia", "cw", "ci", "cia", "cipw", "cipi", "inv", "sea":
+				removable[atoi(f[1])] = true
+			case "invall", "setmax", "adv":
+				return // anything may go
+			}
+		}
+	}
+	for _, e := range r.Atomic[nAtomicSetup:] {
+		removable[e.Key] = true
+	}
+	for _, lc := range r.Loads {
+		for _, k := range lc.Keys {
+			if _, ok := lc.Out[k]; !ok || lc.Err != "" {
+				removable[k] = true
+			}
+		}
+	}
+	for _, rs := range recs {
+		for i := 0; i+1 < len(rs); i++ {
+			a, b := rs[i], rs[i+1]
+			fa, fb := opFields(a.op), opFields(b.op)
+			if fa[0] != "load" || a.res.Panic != "" || a.res.Err != "" || !a.res.OK {
+				continue
+			}
+			if fb[0] != "get" && fb[0] != "getq" && fb[0] != "gete" || fb[1] != fa[1] {
+				continue
+			}
+			k := atoi(fa[1])
+			if removable[k] {
+				continue
+			}
+			x.Count("published-checked")
+			if !b.res.OK {
+				x.Fail("loaded-value-not-published", opName(a.op)+lbl, "%q returned %d (no error) and nothing in this run removes key %d, but the same goroutine's next %q finds nothing: the call returned before the loaded value was in the cache", a.op, a.res.Val, k, b.op)
+			}
+		}
+	}
+}
